@@ -29,12 +29,13 @@ from .. import tlc, graph
 from . import constellation_common as cc
 
 ERRQ = "modem/ErrQuery.tla"
-BASE = np.array([-30.0, -17.0, -4.0, 3.0, 12.0])       # the caller's SNR buffer before any shift (dB, integers)
+BASE = np.array([3.0, -30.0, 12.0, -17.0, -4.0])       # the caller's SNR buffer before any shift (dB, integers, NOT sorted)
 STEPS, MAXSHIFT = [12, 36], 48                          # in-place increments; Base + 48 reaches 60 dB
 FNS = ["SER", "BER", "PER", "SE", "SE0"]
-HOWS = ["buffer", "copy", "view", "list", "scalar", "int", "intarray", "0d", "strided"]
+HOWS = ["buffer", "copy", "view", "list", "scalar", "int", "intarray", "0d", "strided", "2d", "uint"]
+REFUSALS = ["setConstellation3", "setConstellation2d", "setConstellationEmpty", "modulateM", "perBadLength", "serBadType"]
 
-CARE = ["WellFormed", "Bijective", "Unchecked", "Accepts"]
+CARE = ["WellFormed", "Bijective", "Unchecked", "Accepts", "CopyIsEqual"]
 SNR_DB = np.arange(-30, 61, dtype=float)          # quick: 91 integer points (thorough: 364 points, see run)
 PACKETS = [1, 2, 3, 7, 10, 100, 1000, 10000, 10 ** 6]
 
@@ -197,6 +198,50 @@ def judge(ctx, name, spec, step, obj, pr, exact=True):
                 bad(q, f"calcTheoretical{q} increases between two of the seeded SNR values", snr_db=tn)
             else:
                 ctx.ok((name, q, tn), n=max(1, int(np.size(vals))))
+    # ALL FOUR functions: an array result is the element-wise curve whatever the ORDER of the values (descending,
+    # shuffled, 2-d with unsorted rows) and whatever the integer STORAGE (unsigned types for values >= 0, numpy scalars)
+    nn = np.arange(0, 61, 3)
+    perm = rs.permutation(91)
+    order_trials = [("descending array", ints[::-1].astype(float)), ("shuffled array", ints[perm].astype(float)),
+                    ("2-d array with unsorted rows", ints[perm][:90].reshape(9, 10).astype(float)),
+                    ("uint8 array", nn.astype(np.uint8)), ("uint16 array", nn[::-1].astype(np.uint16)), ("uint32 array", nn.astype(np.uint32)),
+                    ("uint64 array", nn.astype(np.uint64)), ("np.uint8 scalar", np.uint8(12)), ("np.uint64 scalar", np.uint64(33)),
+                    ("np.int16 scalar", np.int16(-7))]
+    for fn in FNS:
+        Lq = 100
+        call = {"SER": lambda a: obj.calcTheoreticalSER(a), "BER": lambda a: obj.calcTheoreticalBER(a),
+                "PER": lambda a: obj.calcTheoreticalPER(a, Lq), "SE": lambda a: obj.calcTheoreticalSpectralEfficiency(a, Lq),
+                "SE0": lambda a: obj.calcTheoreticalSpectralEfficiency(a)}[fn]
+        for tn, arg in order_trials:
+            vals = np.asarray(arg, dtype=float)
+            want, at = expected_query(pr, fn, vals, Lq)
+            try:
+                got = np.asarray(call(arg), dtype=float)
+                okq = got.shape == np.shape(vals) and close(got, want, at)
+            except Exception as ex:
+                got, okq = f"raised {type(ex).__name__}: {ex}"[:120], False
+            if okq:
+                ctx.ok((name, fn, tn), n=max(1, int(np.size(vals))))
+            else:
+                i = first_bad(got, want, at) if not isinstance(got, str) and np.shape(got) == np.shape(vals) else 0
+                bad(fn, f"{fn} of an SNR argument given as {tn} is not the curve at its values: at position {i} ({np.ravel(vals)[i]:g} dB) "
+                        f"{'got ' + repr(np.ravel(got)[i]) if not isinstance(got, str) and np.size(got) > i else got}, expected {np.ravel(want)[i]!r}", snr_db=tn)
+    # copies: a pickled / deep-copied modulator gives the same curves
+    import copy
+    import pickle
+    for how, mk in (("pickle", lambda: pickle.loads(pickle.dumps(obj))), ("copy.deepcopy", lambda: copy.deepcopy(obj)), ("copy.copy", lambda: copy.copy(obj))):
+        try:
+            cp = mk()
+            same = all(np.array_equal(np.asarray(f(cp)), np.asarray(f(obj))) for f in
+                       (lambda o: o.calcTheoreticalSER(SNR_DB), lambda o: o.calcTheoreticalBER(SNR_DB), lambda o: o.calcTheoreticalPER(SNR_DB, 10),
+                        lambda o: o.calcTheoreticalSpectralEfficiency(SNR_DB, 10)))
+        except Exception as ex:
+            same = False
+            how += f" (raised {type(ex).__name__}: {ex})"[:120]
+        if same:
+            ctx.ok((name, "copy", how), n=4 * len(SNR_DB))
+        else:
+            bad("SER", f"CopyIsEqual: the error-rate curves of a {how} copy differ from those of the original", snr_db=how)
     tol = 1e-12
     if not (np.all(B <= S * (1 + tol) + ULP1) and np.all(S <= k * B * (1 + tol) + ULP1)):
         i = int(np.argmax((B > S * (1 + tol) + ULP1) | (S > k * B * (1 + tol) + ULP1)))
@@ -258,15 +303,16 @@ def judge(ctx, name, spec, step, obj, pr, exact=True):
 
 # ------------------------------------------------------------------ stage H: query histories
 ERRQ_DEVS = {"CachesByIdentity": "PureFunction", "QueryTouchesTable": "QueryIsPure", "QueryWritesArgument": "ArgumentsUnchanged",
-             "ResultBufferReused": "EarlierResultsUnchanged"}
+             "ResultBufferReused": "EarlierResultsUnchanged", "RefusedCallHalfUpdates": "RejectedChangesNothing",
+             "MonotoneEnvelope": "PureFunction"}
 
 
 def errq_cfg(dev=None, emit=True):
     dev = "CachesByIdentity" if dev is True else dev
     defs = {"Dev": tlc.tla({k: (k == dev) for k in ERRQ_DEVS})}
     cfg = tlc.cfg_text(constants={"Steps": tlc.tla(set(STEPS)), "MaxShift": str(MAXSHIFT), "Fns": tlc.tla(set(FNS)),
-                                  "Hows": tlc.tla(set(HOWS))},
-                       defs=defs, invariants=["TypeOK", "PureFunction", "QueryIsPure", "ArgumentsUnchanged", "EarlierResultsUnchanged"], view="View",
+                                  "Hows": tlc.tla(set(HOWS)), "Refusals": tlc.tla(set(REFUSALS))},
+                       defs=defs, invariants=["TypeOK", "PureFunction", "QueryIsPure", "ArgumentsUnchanged", "EarlierResultsUnchanged", "RejectedChangesNothing"], view="View",
                        action_constraints=["Emit"] if emit else [])
     return cfg, defs
 
@@ -283,6 +329,47 @@ def expected_query(pr, fn, values, L):
     if fn == "SE":
         return k * (1.0 - per_of(ber, L)), k * ULP1 * (L + 1)
     return k * (1.0 - ber), k * ULP1
+
+
+def observe(o, probe_snr):
+    """everything a caller can see of a modulator (comparisons are total: an exception is an observation too)"""
+    out = []
+    for f in (lambda: np.array(o.symbols, copy=True).tolist(), lambda: (o.M, float(o.K), o.name),
+              lambda: np.asarray(o.calcTheoreticalSER(probe_snr)).tolist(), lambda: np.asarray(o.calcTheoreticalBER(probe_snr)).tolist(),
+              lambda: np.asarray(o.calcTheoreticalSpectralEfficiency(probe_snr, 10)).tolist(),
+              lambda: np.asarray(o.demodulate(np.asarray(o.modulate(np.arange(min(o.M, 8)))).astype(complex))).tolist()):
+        try:
+            out.append(repr(f()))
+        except Exception as ex:
+            out.append(f"raised {type(ex).__name__}")
+    return out
+
+
+def refused_step(obj, which, buf):
+    """RejectedChangesNothing: the call is made on a deep copy; if it RAISES, the copy must still look exactly like the
+    object (if it is accepted there is nothing to judge - the copy is simply discarded)"""
+    import copy
+    probe = copy.deepcopy(obj)
+    before = observe(probe, np.array(buf, copy=True))
+    calls = {"setConstellation3": lambda: probe.setConstellation(np.array([1, -1, 1j])),
+             "setConstellation2d": lambda: probe.setConstellation(np.ones((2, 2), dtype=complex)),
+             "setConstellationEmpty": lambda: probe.setConstellation(np.array([], dtype=complex)),
+             "modulateM": lambda: probe.modulate(np.array([0, probe.M])),
+             "perBadLength": lambda: probe.calcTheoreticalPER(np.array(buf, copy=True), "ten"),
+             "serBadType": lambda: probe.calcTheoreticalSER("high")}
+    import warnings
+    try:
+        with warnings.catch_warnings():
+            warnings.simplefilter("ignore")
+            calls[which]()
+        return None                 # accepted: not a refused call on this tree
+    except Exception as ex:
+        after = observe(probe, np.array(buf, copy=True))
+        names = ["symbols", "M/K/name", "SER", "BER", "spectral efficiency", "round trip"]
+        diff = [n for n, a_, b_ in zip(names, before, after) if a_ != b_]
+        if diff:
+            return f"RejectedChangesNothing: {which} raised {type(ex).__name__} but left the object changed ({', '.join(diff)} differ)"
+        return None
 
 
 def run_history(job):
@@ -302,15 +389,27 @@ def run_history(job):
             continue
         j = (seed + i) % len(BASE)
         how, fn = e["how"], e["fn"]
+        if fn == "refused":
+            v = refused_step(obj, how, buf)
+            if v:
+                viol.append({"step": i, "what": v + f" (step {i} of the history {[x['fn'] + ':' + x['how'] for x in edges[:i + 1]]})"})
+                break
+            okc += 1
+            continue
         if how == "strided":                    # a non-contiguous array holding the same values
             wide = np.full(2 * len(buf) + 1, 999.0)
             wide[1::2] = buf
         arg = {"buffer": buf, "copy": buf.copy(), "view": buf[:], "list": [float(v) for v in buf], "scalar": float(buf[j]),
                "int": int(buf[j]), "intarray": buf.astype(np.int64), "0d": np.array(buf[j]),
-               "strided": wide[1::2] if how == "strided" else None}[how]
+               "strided": wide[1::2] if how == "strided" else None,
+               "2d": np.stack([buf, buf[::-1]]),
+               # unsigned storage whenever the values allow it (a dB value >= 0 is a legal value of the type)
+               "uint": buf.astype([np.uint8, np.uint16, np.uint64][(seed + i) % 3] if buf.min() >= 0 else np.int16)}[how]
         values = BASE + e["at"]                 # where TLC says the returned curve must be evaluated
         if how in ("scalar", "int", "0d"):
             values = values[j]
+        elif how == "2d":
+            values = np.stack([values, values[::-1]])
         exp, at = expected_query(pr, fn, values, L)
         snap = np.array(arg, copy=True) if isinstance(arg, np.ndarray) else (list(arg) if isinstance(arg, list) else arg)
         try:
